@@ -123,7 +123,8 @@ def gen_script(r, rounds=(1, 2), max_edits=7, names=None, odd=True, sessions=("s
         ops.append(("commit", rnd, expected_note(tr, parent_texts),
                     {p: expected_blame(tr, p) for p in tr.files if tr.files[p]},
                     tr.snapshot(), {p: sorted(v) for p, v in parent_texts.items()}))
-    return {"base": base, "ops": ops, "kinds": kinds, "final": tr.snapshot()}
+    return {"base": base, "ops": ops, "kinds": kinds, "final": tr.snapshot(),
+            "exec": [n for n in sorted(base) if r.chance(1, 4)]}
 
 
 def prefix_text(tr, path, pos, j, n):
@@ -145,7 +146,7 @@ def exec_script(sim, script, r=None, extra_human_cp=0, repeat_cp=0, noop_cmds=0,
     {"round", "note": sets, "blame": {path: {}}, "rc"} .
     Variant knobs (probabilities in 1/8ths, need r): extra human checkpoints after human edits,
     repeated checkpoints, read-only git commands in between."""
-    sim.init(script["base"])
+    sim.init(script["base"], exec_files=script.get("exec", ()))
     obs = []
     for o in script["ops"]:
         if o[0] == "edit":
